@@ -263,6 +263,44 @@ def _plane_facet(P, n, pt):
     return g < 0, _dec(g, s)
 
 
+def facet_planes(kind, params):
+    """(n, d) with outward normal n (n.x = d on the facet) for each planar
+    facet of BOX / RPP / RHP / HEX, in MCNP facet order."""
+    k = kind.lower()
+    p = list(params)
+    out = []
+    if k == 'box':
+        v = _v(p, 0)
+        for q in (3, 6, 9):
+            a = _v(p, q)
+            out.append((a, float(a @ (v + a))))
+            out.append((-a, float(-a @ v)))
+        return out
+    if k == 'rpp':
+        for ax in range(3):
+            n = np.zeros(3)
+            n[ax] = 1.0
+            out.append((n, float(p[2 * ax + 1])))
+            out.append((-n, float(-p[2 * ax])))
+        return out
+    if k in ('rhp', 'hex'):
+        v, h, r1 = _v(p, 0), _v(p, 3), _v(p, 6)
+        if len(p) == 15:
+            r2, r3 = _v(p, 9), _v(p, 12)
+        elif len(p) == 9:
+            r2 = _rot_about(r1, h, math.pi / 3.)
+            r3 = _rot_about(r1, h, 2. * math.pi / 3.)
+        else:
+            raise ModelError('RHP needs 9 or 15 entries')
+        for r in (r1, r2, r3):
+            out.append((r, float(r @ (v + r))))
+            out.append((-r, float(-r @ (v - r))))
+        out.append((h, float(h @ (v + h))))
+        out.append((-h, float(-h @ v)))
+        return out
+    raise ModelError('no planar facet table for %s' % kind)
+
+
 def body_facets(kind, params, P):
     """List of (neg, dec) per facet in MCNP facet order, negative = the side
     of the facet surface on which the body lies (outward side positive)."""
